@@ -5,6 +5,7 @@ import logging
 import hashlib
 import json
 import os
+import sys
 import shutil
 import tempfile
 from concurrent.futures import ThreadPoolExecutor
@@ -461,6 +462,44 @@ def write_tables(root, number, cs, version, b, d):
         json.dump(d, f)
 
 
+def run_message_templates(ctx):
+    """BufrMessage.build_template over a HISTORY of messages in this one process: the same descriptor list and master table
+    version under different centres / local table versions (some with bundled local tables, some without). The template built
+    for each message must be the expansion of the table group selected for THAT message (tg.template_from_ids), whatever
+    was built before."""
+    sys.path.insert(0, os.path.dirname(os.path.abspath(__file__)))
+    import c13_obs as O
+    from pybufrkit.decoder import Decoder
+    rng = ctx.rng
+    fams = []
+    for ids in ([1001, 1192, 12001], [8201, 12101], [1001, 1211, 12101], [301193, 1001], [1001, 33194, 12001]):
+        fams.append([(ids, dict(mtv=13, centre=c, ltv=l)) for c in (98, 7, 34) for l in (1, 2)])
+    for ids in ([1001, 14001, 12001], [22039, 12001], [301075, 1001], [307017]):
+        fams.append([(ids, dict(mtv=v, centre=0, ltv=0)) for v in (13, 18, 25, 33)])
+    dec = Decoder()
+    for fam in fams:
+        order = fam * 2
+        rng.shuffle(order)
+        for ids, kw in order:
+            b = O.mk_message(ids, 8, **kw)
+            try:
+                m = dec.process(b, info_only=True)
+                tmpl, tg = m.build_template(None, normalize=1)
+                got = show_descs(tmpl.members)
+                want = show_descs(tg.template_from_ids(*ids).members)
+            except Exception as e:
+                got, want = 'err %d' % lib.err_code(e), None
+            ctx.count(('message-template', tuple(ids), tuple(sorted(kw.items()))), True)
+            ctx.dist['message-templates-in-history'] += 1
+            if want is not None and got != want:
+                ctx.violation({'kind': 'C14-message-template', 'case': {'ids': ids, 'message': kw, 'order': [k for _, k in order]},
+                               'built': got[:300], 'expansion_of_selected_tables': want[:300]},
+                              'ids %s %s: the template built for the message is not the expansion of its own table group' % (ids, kw))
+            elif want is None:
+                ctx.violation({'kind': 'C14-message-template', 'case': {'ids': ids, 'message': kw}, 'error': got},
+                              'ids %s %s: build_template raised %s' % (ids, kw, got))
+
+
 def run_synthetic_tables(ctx, n):
     """small generated WMO + local tables under a temporary root: override order
     (later file wins; a WMO sequence keeps referring to the WMO definition),
@@ -827,6 +866,7 @@ def run(ctx):
 
     # ---- (3) generated tables --------------------------------------------------------
     run_synthetic_tables(ctx, ctx.n(25, 400))
+    run_message_templates(ctx)
 
     # ---- (4) version selection ---------------------------------------------------------
     run_version_selection(ctx, wmo, local)
